@@ -381,6 +381,14 @@ fn exec_op(op: &str) -> OpOut {
         ["ext_pack", v] => exec_ext_pack(v),
         [op @ ("enc" | "dec" | "rt"), ty, arg] => exec_wire(op, ty, arg),
         ["minbytes"] => exec_minbytes(),
+        ["utf8", h] => match parse_hex(h) {
+            // ties the model's executable UTF-8 check to `str::from_utf8`
+            Some(b) => {
+                let ok = std::str::from_utf8(&b).is_ok();
+                OpOut { out: format!("ok {ok}"), tags: vec![format!("utf8:{ok}")], nontrivial: !b.is_empty(), ..Default::default() }
+            }
+            None => OpOut::bad(),
+        },
         _ => OpOut::bad(),
     }
 }
@@ -1646,9 +1654,6 @@ fn gen_msg(rng: &mut Rng, det: bool) -> String {
     }
 }
 
-const WIRE_TYPES: [&str; 14] =
-    ["value", "ts", "dbv", "seq", "cluster", "actor", "change", "changeset", "changev1", "need", "state", "uni", "bi", "msg"];
-
 /// a generated term of the type (deterministic encoding when `det`)
 fn gen_term(rng: &mut Rng, ty: &str, det: bool) -> String {
     match ty {
@@ -1670,6 +1675,32 @@ fn gen_term(rng: &mut Rng, ty: &str, det: bool) -> String {
         "uni" => gen_uni(rng),
         "bi" => gen_bi(rng),
         _ => gen_msg(rng, det),
+    }
+}
+
+/// byte strings around the edges of well-formed UTF-8: valid text with one byte changed, and sequences
+/// of lead / continuation bytes (overlong forms, surrogates, > U+10FFFF, truncated sequences)
+fn gen_utf8_hostile(rng: &mut Rng) -> Vec<u8> {
+    if rng.chance(1, 2) {
+        let mut b = gen_text(rng, 1).into_bytes();
+        if !b.is_empty() && rng.chance(3, 4) {
+            let i = rng.below(b.len() as u64) as usize;
+            match rng.below(3) {
+                0 => b[i] = rng.below(256) as u8,
+                1 => {
+                    b.remove(i);
+                }
+                _ => b.truncate(i),
+            }
+        }
+        b
+    } else {
+        const EDGE: [u8; 24] = [
+            0x00, 0x7f, 0x80, 0xbf, 0xc0, 0xc1, 0xc2, 0xdf, 0xe0, 0xe1, 0xec, 0xed, 0xee, 0xef, 0xf0, 0xf1, 0xf3, 0xf4, 0xf5, 0xff, 0x9f,
+            0xa0, 0x8f, 0x90,
+        ];
+        let n = rng.range(1, 6);
+        (0..n).map(|_| if rng.chance(4, 5) { *rng.pick(&EDGE) } else { rng.below(256) as u8 }).collect()
     }
 }
 
@@ -1845,6 +1876,9 @@ impl Prop for C09 {
         for _ in 0..100 {
             let ty = pick_type(rng);
             ops.push(format!("dec {ty} {}", hex_of(&gen_wire_hostile(rng, ty))));
+        }
+        for _ in 0..15 {
+            ops.push(format!("utf8 {}", hex_of(&gen_utf8_hostile(rng))));
         }
         ops
     }
